@@ -331,7 +331,7 @@ func c07Run(in *c07Input) *c07Obs {
 	h := bstream.HandlerFunc(func(blk *pbbstream.Block, obj interface{}) error {
 		so := obj.(c07Stepable)
 		c := so.Cursor()
-		ev := fkEvent{Step: int(so.Step()), Blk: fkFromPB(blk), CBlk: fkRefOf(c.Block), Head: fkRefOf(c.HeadBlock), Lib: fkRefOf(c.LIB)}
+		ev := fkEvent{Step: int(so.Step()), Blk: fkFromPB(blk), CBlk: fkCursorBlk(c, so.Step()), Head: fkRefOf(c.HeadBlock), Lib: fkRefOf(c.LIB), CStep: int(c.Step)}
 		if j := so.ReorgJunctionBlock(); j != nil && so.Step() == bstream.StepUndo {
 			r := fkRefOf(j)
 			ev.Junc = &r
